@@ -1,6 +1,7 @@
 """developer helper: run the committed mutants of one property whose description contains <substr> through the property's Verus units
    usage: run_mutants.py <prop> [substr]"""
 import sys, os, shutil
+os.environ.setdefault("VERIF_BUILD", "/var/tmp/verif-build-mutants-%d" % os.getpid())   # generated units of mutated trees never touch /verif/build
 sys.path.insert(0, os.path.dirname(os.path.abspath(__file__)))
 import extract, mutants, verus_unit, props
 from extract import AnchorLost
@@ -36,7 +37,5 @@ def main():
     finally:
         extract.REPO = real; extract._sources.clear()
         shutil.rmtree(scratch, ignore_errors=True)
-        for un in cfg.get("units", []):
-            try: verus_unit.run_unit(un)
-            except Exception: pass
+        shutil.rmtree(os.environ["VERIF_BUILD"], ignore_errors=True)
 main()
